@@ -548,6 +548,15 @@ def r7_category(ctx: Ctx, ws: FuncInfo) -> None:
     ctx.check(len(rets) == 1 and src(rets[0].value) == 'categories', 'C12.R7', bc, 'return', 'returns the grouped categories', 'category view is not what is returned')
     # per-category type totals: every transaction is put into the income / investment / transfer / spending sum by its *own* tags (the analysed totals are
     # transaction-level too; a merchant can have differently tagged transactions)
+    # (the sums are built transaction by transaction: a merchant's net total under its merged tags is not the sum of its transactions' buckets)
+    tt_names = {src(s_.value) for s_ in ast.walk(bc.node) if isinstance(s_, ast.Assign) and isinstance(s_.targets[0], ast.Subscript) and isinstance(s_.targets[0].slice, ast.Constant)
+                and s_.targets[0].slice.value == 'typeTotals' and isinstance(s_.value, ast.Name)}
+    for s_ in ast.walk(bc.node):
+        if isinstance(s_, ast.AugAssign) and isinstance(s_.target, ast.Subscript) and isinstance(s_.target.value, ast.Name) and s_.target.value.id in tt_names:
+            per_txn = any(isinstance(a_, ast.For) and "'transactions'" in src(a_.iter) for a_ in ancestors(s_))
+            ctx.check(per_txn, 'C12.R7', bc, f'type-totals:per-transaction:{src(s_.target.slice)[:20]}', 'type totals are accumulated transaction by transaction',
+                      f'{src(s_)[:60]!r} is not inside a loop over the merchant\'s transactions: a merchant with purchases and a refund (or transfers in and out) contributes its net '
+                      f'amount to one bucket, and the per-category sums no longer match the analysed totals', s_)
     tl = [lp for lp in ast.walk(bc.node) if isinstance(lp, ast.For) and isinstance(lp.target, ast.Name) and "'transactions'" in src(lp.iter)]
     for lp in tl:
         reads = [c for c in ast.walk(lp) if isinstance(c, ast.Call) and isinstance(c.func, ast.Attribute) and c.func.attr == 'get' and c.args
